@@ -15,6 +15,8 @@ class Scen(CompScenario):
         self.top.add("dut", self.dut)
         for name in ("alloc", "free", "free_idx", "order", "clear"):
             self.caller(name, getattr(self.dut, name))
+        if self.cfg.get("twin"):
+            self.twin("alloc", self.dut.alloc)  # two units allocating through the one alloc method
         self.ports = ["alloc", "free", "free_idx", "order", "clear"]
         self.lst: list = []  # allocated identifiers, oldest -> newest
         self.initial = None  # (used, order) as observed before any call changed the state
@@ -58,10 +60,11 @@ class Scen(CompScenario):
                 stim["free_idx.i.idx"] = self.lst.index(stim["free.i.ident"])
         stim["order.en"] = int(cyc == 0 or self.just_cleared or rng.random() < po)
         stim["clear.en"] = int(rng.random() < pc)
-        return stim
+        return self.twin_stim(rng, stim)
 
     # ---- oracle -----------------------------------------------------------------------------
     def check(self, cyc, stim, obs):
+        stim, obs = self.fold_twins(stim, obs)
         n, lst = self.n, self.lst
         used = len(lst)
         en = {p: stim.get(f"{p}.en", 0) for p in self.ports}
@@ -212,7 +215,7 @@ class Prop(PropBase):
         n = rng.choice([1, 2, 3, 4, 5, 6, 7, 8] + ([9, 11, 12, 16] if big else []))
         cycles = rng.randint(80, 400 if big else 240)
         kinds = ["random", "random", "fill", "drain", "pingpong", "contend", "flush", "idle"]
-        return {"entries": n, "cycles": cycles, "sched": rng.choice(["eager", "eager", "rr"]),
+        return {"entries": n, "cycles": cycles, "twin": int(rng.random() < 0.3), "sched": rng.choice(["eager", "eager", "rr"]),
                 "plan": make_plan(rng, cycles, kinds)}
 
     def make(self, cfg):
@@ -222,7 +225,7 @@ class Prop(PropBase):
         return {"port": (viol.get("info") or {}).get("port")}
 
     def cfg_signature(self, cfg):
-        return [cfg["entries"], cfg["sched"]]
+        return [cfg["entries"], cfg["sched"], cfg.get("twin", 0)]
 
     def shrink_cfg(self, cfg):
         n = cfg["entries"]
